@@ -475,15 +475,15 @@ def load_targets():
     def add(d, origin):
         d = dict(d)
         d["fns"] = [tuple(x) for x in d.get("fns", [])]
-        # (b1617, round 9) normalisation from a json block: "rules": {name: [regex, replacement, why(, count)]} are added
-        # to RULES (a name may not be redefined differently), "normalise": {"Impl::fn" | "fn": [rule names]}
-        for rn, rv in (d.get("rules") or {}).items():
-            rv = tuple(rv)
-            if rn in RULES and tuple(RULES[rn]) != rv:
-                raise ExtractError("x_fn: %s: normalisation rule %r is already defined differently" % (origin, rn))
-            RULES[rn] = rv
+        # (b1012, round 9) normalisation from a json target file: `"rules": {name: [regex, replacement, why, count?]}` are added to
+        # RULES (a name may not be redefined differently), `"normalise": {"Impl::fn" | "::fn": [rule names]}`
+        for rn, r in (d.pop("rules", None) or {}).items():
+            if rn in RULES and tuple(RULES[rn]) != tuple(r):
+                raise ExtractError("x_fn: %s: normalisation rule %s is already defined differently" % (origin, rn))
+            RULES[rn] = tuple(r)
         if d.get("normalise") and not all(isinstance(k, tuple) for k in d["normalise"]):
-            d["normalise"] = {((k.rsplit("::", 1)[0], k.rsplit("::", 1)[1]) if "::" in k else (None, k)) if isinstance(k, str) else k: list(v)
+            # ("fn" without "::" = a free function as well: b1617)
+            d["normalise"] = {(((k.split("::", 1)[0] or None, k.split("::", 1)[1]) if "::" in k else (None, k)) if isinstance(k, str) else k): list(v)
                               for k, v in d["normalise"].items()}
         if d["area"] not in by:
             d.setdefault("consts", []); d.setdefault("structs", []); d.setdefault("externals", {}); d.setdefault("foreign_structs", {})
@@ -503,8 +503,7 @@ def load_targets():
         t["foreign_structs"].update(d.get("foreign_structs", {}))
         t["tuple_structs"] += [n for n in d.get("tuple_structs", []) if n not in t["tuple_structs"]]
         t["fns_from"] += [n for n in d.get("fns_from", []) if n not in t["fns_from"]]
-        if d.get("normalise"):
-            t["normalise"] = dict(t.get("normalise") or {}); t["normalise"].update(d["normalise"])
+        if d.get("normalise"): t.setdefault("normalise", {}).update(d["normalise"])
         if d.get("views"):
             t["views"] = (t.get("views") or "") + "\n" + d["views"]
     for t in TARGETS: add(t, "TARGETS")
